@@ -34,7 +34,7 @@ NSHARDS = {"quick": 4, "thorough": 4}
 EXPECTED = 9 * 216 * 1008 * 3
 THRESHOLDS = {"quick": {"c15:enumerated": EXPECTED, "c15:reference-enumerated": EXPECTED, "c15:names-digested": EXPECTED,
                         "c15:element-classes": 10, "c15:re-enumerated-after-helpers": 1, "c15:hash-checked": 300000, "c15:cross-process": 1500, "c15:hashseeds": 3,
-                        "c15:save-load": 300, "c15:identity-after-use": 250, "c15:zanj-file": 30, "c15:legacy-checked": 40000, "c15:from_legacy": 3,
+                        "c15:save-load": 300, "c15:identity-after-use": 250, "c15:pickled": 250, "c15:zanj-file": 30, "c15:legacy-checked": 40000, "c15:from_legacy": 3,
                         "c15:legacy-neighbours": 20}}
 THRESHOLDS["thorough"] = {**THRESHOLDS["quick"], "c15:hash-checked": EXPECTED, "c15:legacy-checked": EXPECTED, "c15:save-load": 2000}
 ANCHORS = ["maze_dataset.tokenization.all_tokenizers:get_all_tokenizers",
@@ -312,6 +312,11 @@ def identity_checks(ctx):
                 twin = ts.build_tokenizer(p)
                 ctx.check(twin.name == t.name and hash(twin) == hash(t) and (twin == t) is True, "C15/used-tokenizer-differs-from-equal-fresh-one",
                           lambda: f"used {t.name} / fresh {twin.name}", case)
+                import pickle
+                t5 = pickle.loads(pickle.dumps(t))
+                ctx.tally("c15:pickled")
+                ctx.check(t5.name == before[0] and hash(t5) == before[1] and t5.hash_int() == before[2] and (t5 == t) is True, "C15/pickle-round-trip-changes-name-or-hash",
+                          lambda: f"{t5.name} vs {before[0]}", case)
                 t4 = MazeTokenizerModular.load(t.serialize())
                 ctx.check(t4.name == before[0] and hash(t4) == before[1] and canon_obj(t4) == canon_params(p), "C15/load-serialize-of-used-tokenizer-changes-name-or-hash",
                           lambda: f"{t4.name} vs {before[0]}", case)
@@ -377,7 +382,8 @@ def identity_checks(ctx):
 def helpers_child_start(ctx):
     """enumerate -> sampling helper -> enumerate again, in a fresh interpreter (no probes: the helper hashes all 5.9M tokenizers),
     running beside the main enumeration of this shard"""
-    return subprocess.Popen([PY, "-m", "vmon.c15_helpers_child"], stdout=subprocess.PIPE, stderr=subprocess.PIPE, text=True,
+    # (started with -O: the enumeration must not depend on assert statements being executed)
+    return subprocess.Popen([PY, "-O", "-m", "vmon.c15_helpers_child"], stdout=subprocess.PIPE, stderr=subprocess.PIPE, text=True,
                             env=shard_env(dict(PYTHONHASHSEED="0")), cwd=VERIF_ROOT)
 
 
